@@ -211,6 +211,20 @@ def do_serve(task):
             state['done'] = tornado.ioloop.IOLoop.current().asyncio_loop.create_task(client(port))
 
         start_kwargs = dict(start['params'])
+        # diff-tool arguments may be open streams (what nbdiff-web <ref> <ref> passes: gitfiles.BlobWrapper, or an
+        # open file of the working tree) instead of file names
+        if isinstance(start_kwargs.get('difftool_args'), dict):
+            class Blob(io.StringIO):
+                name = None
+            conv = {}
+            for k, a in start_kwargs['difftool_args'].items():
+                if isinstance(a, dict) and 'stream_text' in a:
+                    f = Blob(a['stream_text']); f.name = a.get('name', k); conv[k] = f
+                elif isinstance(a, dict) and 'stream_file' in a:
+                    conv[k] = io.open(os.path.join(root, a['stream_file']), encoding='utf-8')
+                else:
+                    conv[k] = a
+            start_kwargs['difftool_args'] = conv
         closable = start_kwargs.pop('closable', None)
         try:
             if closable is None:
